@@ -226,15 +226,16 @@ class FrameQueueFrag(FrameQueue):
                 and frame.header.to_node == self._frags.header.to_node
                 and frame.header.frame_id == self._frags.header.frame_id
             ):
-                if (
-                    self._frags.header.reserved - 1 != frame.header.reserved
-                    and frame.header.message_type != MSG_FRAG_LAST
+                is_last = frame.header.message_type == MSG_FRAG_LAST
+                if (is_last and self._frags.header.reserved > 2) or (
+                    not is_last
+                    and self._frags.header.reserved - 1 != frame.header.reserved
                 ):
                     # print("dropping non sequential fragment")
                     return False
                 self._frags.header.unpack(frame.header.pack())
                 self._frags.message += frame.message[:]
-                if frame.header.message_type == MSG_FRAG_LAST:
+                if is_last:
                     if frame.header.reserved == NETWORK_EXT_DATA:
                         # External data needs to be propagated back to update()
                         frame.header.message_type = NETWORK_EXT_DATA  # by reference
